@@ -1,1 +1,2 @@
-
+import Proofs.Slots
+import Proofs.Scan
